@@ -392,6 +392,84 @@ def report_read_sites(db, rep):
     return out
 
 
+from rules import libtab as _libtab
+
+
+class GetpwHooks(_libtab.SAConc, QHooks):
+    over = None
+
+    def tracked_global(self, path):
+        return True
+
+    def precise_arith(self, path):
+        return True
+
+    def on_assign(self, E, x, path, val):
+        import re as _re
+        m_ = _re.match(r'^userext(?:@\w+)?::L:\w+(?:#\d+)?\[(\d+)\]$', path or '')
+        if m_ and int(m_.group(1)) >= self.size and self.over is None:
+            self.over = (int(m_.group(1)), x.where, E.trace.list())
+
+    def prim_byte_copy(self, E, x, args):
+        from qv.esp import ptr_add
+        dst, n, src = _libtab._one(args[0]), _libtab._one(args[1]), _libtab._one(args[2])
+        if isinstance(dst, tuple) and isinstance(n, int):
+            import re as _re
+            m_ = _re.match(r'^userext(?:@\w+)?::L:\w+(?:#\d+)?\[(\d+)\]$', dst[1])
+            if m_ and int(m_.group(1)) + n > self.size and self.over is None:
+                self.over = (int(m_.group(1)) + n - 1, x.where, E.trace.list())
+        data = self.mem(E, src, n) if isinstance(n, int) and 0 <= n < 200 else None
+        sets = {}
+        if data is not None and isinstance(dst, tuple):
+            for k, b_ in enumerate(data):
+                q = ptr_add(dst, k)
+                if q:
+                    sets[q[1]] = fs(b_)
+        return [Outcome(ret=TOP, sets=sets)]
+
+    def prim_case_lowers(self, E, x, args):
+        return [Outcome(ret=TOP)]
+
+    def prim_getpwnam(self, E, x, args):
+        return [Outcome(ret=fs(0), sets={'$errno': fs(0)})]
+
+    def prim___errno_location(self, E, x, args):
+        return [Outcome(ret=fs(('&', '$errno')))]
+
+    def prim__exit(self, E, x, args):
+        return 'noreturn'
+
+
+def getpw_name_sites(db, rep):
+    """qmail-getpw userext(): for local parts of 0..40 bytes (no dash, and a dash at each position) every store into username[] stays inside its GETPW_USERLEN bytes"""
+    from rules import libtab
+    prog = db.program('qmail-getpw')
+    ue = prog.fn('userext', 'qmail-getpw.c')
+    size = db.unit('qmail-getpw.c').macro_int('GETPW_USERLEN')
+    if size is None:
+        raise AnalysisBroken('qmail-getpw.c: GETPW_USERLEN is not an integer macro')
+    bad = None
+    nrun = 0
+
+    GH = GetpwHooks
+    GetpwHooks.size = size
+    for n in list(range(0, 5)) + [size - 2, size - 1, size, size + 1, size + 8]:
+        for dash in [None] + [d for d in (0, 1, size - 1, size, size + 1) if d < n]:
+            local = bytearray(b'u' * n)
+            if dash is not None:
+                local[dash] = ord('-')
+            H = GH()
+            e = Engine(db, prog, H, max_states=120000)
+            st = {'G:local': fs(('&', 'LOC[0]')), 'G:auto_break[0]': fs(ord('-')), 'G:auto_break[1]': fs(0)}
+            st.update(libtab.conc_string_cells('LOC', bytes(local)))
+            e.run(ue, st)
+            rep.count_states(e.states, e.transitions)
+            nrun += 1
+            if H.over and bad is None:
+                bad = ('local part of %d bytes%s: byte %d of username[%d] is written at %s' % (n, (' with a dash at offset %d' % dash) if dash is not None else '', H.over[0], size, H.over[1]), H.over[2])
+    return {'getpw:name-copy-and-its-NUL-stay-inside-username[]': (bad is None, 'qmail-getpw.c:userext', bad[0] if bad else '%d local parts' % nrun, bad[1] if bad else [])}
+
+
 def run(ctx):
     db, rep = ctx.db, ctx.report
     # ---------------------------------------------------------------- 1. reserve contracts (linear symbolic)
@@ -511,6 +589,13 @@ def run(ctx):
 
     # ---------------------------------------------------------------- 4. fixed buffers in the network daemons
     r4 = rep.rule('C20.4-fixed-buffers', 'R-GUARD', 'qmtpd/qmqpd buf[1000], qmail.c errstr[256]: every store is under its length guard; the relay suffix length used in the guard is computed from the final value of the suffix')
+    # qmail-local's forward list: the pointer array is allocated from a first pass over the .qmail text and filled by a second (C13 rule 3, concrete files)
+    from rules import C13 as _c13
+    v_ = _c13.interp_sites(db, rep, db.program('qmail-local'))['forward-list-fits-its-allocation']
+    r4.check(v_[0], 'qmail-local:forward-list-fits-its-allocation', v_[1], v_[2], v_[3])
+    # qmail-getpw's username[GETPW_USERLEN]: the copy and its terminating NUL stay inside
+    for inst_, v_ in sorted(getpw_name_sites(db, rep).items()):
+        r4.check(v_[0], inst_, v_[1], v_[2], v_[3])
     pq = db.program('qmail-qmtpd')
     m = pq.fn('main', 'qmail-qmtpd.c')
     bufsz = db.unit('qmail-qmtpd.c').globals['buf']['arr']
